@@ -255,6 +255,46 @@ class Headline(Contract):
                 "headline_not_above_any_month": value <= a["k"][i]}
 
 
+def _length(x):
+    v = unwrap(x)
+    return V(len(v)) if isinstance(v, (list, tuple)) else V(v.length)
+
+
+class CropSplit(Contract):
+    """Extractor.to_monthly_list_outdoor_crops_kcals on its own: for every horizon, any production net of feed /
+    biofuel (of either sign) and any non-negative amount eaten, eaten immediately + eaten from new storage is what
+    was eaten (x the conversion).  Replayable: the solved variables are plain holders of a .varValue."""
+    prop = "C04"
+    file = EX
+    func = "Extractor.to_monthly_list_outdoor_crops_kcals"
+    name = "split_adds_up"
+    merge = True
+
+    def inputs(self, S):
+        n = S.int("N")
+        S.assume(And(n >= 1, n <= 240))
+        produced = S.series("produced", n, nd=False)
+        eaten = S.series("eaten", n, nd=False)
+        S.forall(n, lambda i: eaten[i] >= 0)
+        conv = S.real("conversion")
+        holder = S.cls(EX, "Extractor")
+        ea = unwrap(eaten)
+        if ea.concrete_len():
+            variables = [Obj(holder, {"varValue": ea.get(k)}) for k in range(ea.length)]
+        else:
+            variables = Arr(ea.length, fn=lambda i: Obj(holder, {"varValue": ea.get(i)}), dtype="object", is_nd=False)
+        ext = S.obj(EX, "Extractor", constants={"NMONTHS": unwrap(n)})
+        return dict(args=[ext, variables, produced, conv], n=n, produced=produced, eaten=eaten, conv=conv)
+
+    def ensures(self, S, a, res):
+        i = S.idx("i", a["n"])
+        imm, new = res[0], res[1]
+        return {"immediate_plus_new_storage_is_crops_eaten": imm[i] + new[i] == a["eaten"][i] * a["conv"],
+                "one_value_per_month": And(_length(imm) == a["n"], _length(new) == a["n"]),
+                "new_storage_part_only_when_more_is_eaten_than_produced":
+                    Implies(a["produced"][i] >= a["eaten"][i], new[i] == 0)}
+
+
 class FloorCarried(Contract):
     """The secondary solves carry  0.99995 x optimum <= consumed_kcals(m)  for EVERY month m, so the headline read
     from the final solve is at least 0.99995 x the optimiser's own optimum (0.005 % < 0.01 %)."""
@@ -263,9 +303,15 @@ class FloorCarried(Contract):
     func = "Optimizer.constrain_next_optimization_to_have_same_minimum_starvation"
     name = "floor_for_every_month"
     replayable = False
+    pop_small = False
+
+    def __init__(self, pop_small=False):
+        self.pop_small = pop_small
+        self.name = "floor_for_every_month" + ("[population<1e7]" if pop_small else "[population>=1e7]")
+        super().__init__()
 
     def inputs(self, S):
-        w = lp.World(S, ["stored_food"])
+        w = lp.World(S, ["stored_food"], pop_small=self.pop_small)
         from pyvc.pulpmodel import LpModel
         model = LpModel("m", -1)
         opt_val = S.real("first_solve_optimum")
@@ -292,7 +338,7 @@ class FloorCarried(Contract):
         return {"floor_constraint_added_for_every_month": And(V(ok), goal)}
 
 
-CONTRACTS = [Reporting(), Rounding(), Headline(), FloorCarried()]
+CONTRACTS = [Reporting(), Rounding(), Headline(), CropSplit(), FloorCarried(False), FloorCarried(True)]
 TRUSTED = [
     "machine floats treated as mathematical reals; round() exact half-even (stored food / outdoor crops are reported after rounding to 3 decimals of a percent: those two contributions are proved to within 0.0005 percentage points, everything else exactly)",
     "constants['KCALS_MONTHLY'/'FAT_MONTHLY'/'PROTEIN_MONTHLY'] handed to the Extractor are the class-level conversion settings (Parameters.set_nutrition_per_month)",
